@@ -188,7 +188,13 @@ fn gen_plan(seed: u64) -> MacroPlan {
             let kind = r.pick(&kinds).clone();
             let form = if kind.is_hist() { r.pick(&[Form::Opts, Form::NameHelp, Form::NameHelpBuckets]).clone() } else { r.pick(&[Form::Opts, Form::NameHelp]).clone() };
             let nconst = if form == Form::Opts { r.below(3) as usize } else { 0 };
-            let consts = [("ck", "cv"), ("dk", "d v")][..nconst].iter().map(|(a, b)| (a.to_string(), b.to_string())).collect();
+            // with two maps the second may repeat the first one's key: the later value wins, exactly as
+            // in the explicit `const_labels(first.extend(second))`
+            let consts: Vec<(String, String)> = if nconst == 2 && r.chance(40) {
+                vec![("ck".to_string(), "cv".to_string()), ("ck".to_string(), "later".to_string())]
+            } else {
+                [("ck", "cv"), ("dk", "d v")][..nconst].iter().map(|(a, b)| (a.to_string(), b.to_string())).collect()
+            };
             let labels: Vec<String> = if kind.is_vec() { ["l1", "l2"][..1 + r.below(2) as usize].iter().map(|s| s.to_string()).collect() } else { vec![] };
             let buckets = match r.below(3) {
                 0 => DEFAULT_BUCKETS.to_vec(),
